@@ -40,6 +40,65 @@ def build_hrg(spec):
     return h
 
 
+def expected_ntgraph(spec):
+    names = {spec['start']} | set(spec.get('declared', []))
+    want = {}
+    for lhs, labels in spec['rules']:
+        names.add(lhs)
+        for l in labels:
+            if l != 't':
+                names.add(l)
+    for nme in names:
+        want[nme] = set()
+    for lhs, labels in spec['rules']:
+        for l in labels:
+            if l != 't':
+                want[lhs].add(l)
+    return want
+
+
+def run_ntgraph_history(spec, mutation):
+    """query, mutate the same HRG object through its public API, query again (the dependency
+    graph must reflect the grammar as it is at the time of the call)"""
+    import fggs
+    from fggs.utils import nonterminal_graph, scc
+    h = build_hrg(spec)
+    g0 = nonterminal_graph(h)
+    spec2 = {'start': spec['start'], 'rules': [[l, list(ls)] for l, ls in spec['rules']], 'declared': list(spec.get('declared', []))}
+    kind = mutation[0]
+    if kind == 'add_rule':
+        gph = fggs.Graph()
+        gph.new_edge(mutation[2], [], is_nonterminal=True)
+        h.new_rule(mutation[1], gph)
+        spec2['rules'].append([mutation[1], [mutation[2]]])
+    elif kind == 'rhs_add_edge':
+        rules = h.all_rules()
+        if not rules:
+            return None
+        r = rules[mutation[1] % len(rules)]
+        r.rhs.new_edge(mutation[2], [], is_nonterminal=True)
+        h.add_edge_label(fggs.EdgeLabel(mutation[2], [], is_nonterminal=True))
+        spec2['rules'][mutation[1] % len(rules)][1].append(mutation[2])
+        spec2['declared'].append(mutation[2])
+    elif kind == 'set_start':
+        h.start = mutation[1]
+        spec2['start'] = mutation[1]
+        spec2['declared'].append(spec['start'])
+    elif kind == 'add_label':
+        h.add_edge_label(fggs.EdgeLabel(mutation[1], [], is_nonterminal=True))
+        spec2['declared'].append(mutation[1])
+    g1 = nonterminal_graph(h)
+    got = {k.name: {y.name for y in v} for k, v in g1.items()}
+    want = expected_ntgraph(spec2)
+    if got != want:
+        return f'after {mutation}: nonterminal_graph = {got}, expected {want}'
+    comps = scc(g1)
+    seen = [x.name for c in comps for x in c]
+    if sorted(seen) != sorted(want):
+        return f'after {mutation}: scc components {seen} do not cover nonterminals {sorted(want)}'
+    return None
+
+
 def run_ntgraph(spec):
     from fggs.utils import nonterminal_graph
     h = build_hrg(spec)
